@@ -24,6 +24,7 @@ INF == MaxT + 1000
 (* steps: [k, a, b, m]                                                      *)
 (*  sleep a | tosleep a b (timeout(a, sleep(b))) | tonever a | torecv a b(ch)*)
 (*  select a b (biased) | reset a b | polldrop a | ivlnew a(period) m(mode) *)
+(*  twin a (two sleeps for the same deadline polled once, first dropped)    *)
 (*  tick | send a(ch) | recv a(ch) | sendself a(delay): a message to the    *)
 (*  module that its handler forwards into channel 0 | restart a(delay)      *)
 (*  panic: the task panics; tokio confines the panic to the task (C13): it *)
@@ -81,6 +82,9 @@ RunStep ==
        [] s.k = "select" ->
             /\ (IF s.a = 0 \/ s.b = 0 THEN Complete(t, IF s.a = 0 THEN "first" ELSE "second")
                 ELSE Block(t, "select", now + s.a, now + s.b))
+            /\ UNCHANGED <<ivl, q, amb, pendSelf, shut>>
+       [] s.k = "twin" ->      \* two timers with one deadline in one task; the first one is dropped at once, the second awaited
+            /\ (IF s.a = 0 THEN Complete(t, "ok") ELSE Block(t, "timer", now + s.a, INF))
             /\ UNCHANGED <<ivl, q, amb, pendSelf, shut>>
        [] s.k = "reset" ->
             /\ Block(t, "timer", now + s.b, INF) /\ UNCHANGED <<ivl, q, amb, pendSelf, shut>>
